@@ -241,7 +241,7 @@ fn c17_cell_host_nontext_plus_added() {
 }
 
 //@ like: c17_cell_no_headers
-//@ tier: thorough
+//@ tier: off
 #[kani::proof]
 fn c17_cell_cl_5() {
     c17_menu_case(1, false, 1, false);
@@ -539,7 +539,7 @@ fn c13_min_unrelated_kept() {
 }
 
 //@ like: c17_cell_no_headers
-//@ tier: thorough
+//@ tier: off
 #[kani::proof]
 fn c17_cell_te_chunked() {
     c17_menu_case_te(1, false, 0, false, 1);
